@@ -6,6 +6,7 @@ import (
 	"strings"
 
 	bo "github.com/benoitkugler/webrender/html/boxes"
+	"golang.org/x/net/html"
 )
 
 // finding is one violated clause on one tree.
@@ -30,6 +31,12 @@ type treeInfo struct {
 	finds    []finding
 	skeleton strings.Builder
 	anon     int
+
+	calls     []bo.Box             // the ::footnote-call boxes of the tree, in document order
+	replaced  map[*html.Node]bo.Box // elements whose principal box is a replaced box
+	all       []bo.Box             // every box of the tree and of the footnote area
+	inFnArea  map[string]bool      // owners with a box in the footnote area
+	callsSeen int
 }
 
 func ownerKey(b bo.Box) string {
@@ -81,13 +88,26 @@ func childList(b bo.Box) string {
 
 // analyse walks the tree once: structural clauses I1, I2, I3, I5 on every box, and the
 // indexes needed by the input-driven clauses.
-func analyse(root bo.Box) *treeInfo {
-	ti := &treeInfo{byOwner: map[string][]boxRef{}, letters: map[rune]int{}, letterAt: map[rune]string{}, counters: map[string]int64{}}
-	var walk func(b, parent bo.Box, depth int)
-	walk = func(b, parent bo.Box, depth int) {
+func analyse(root bo.Box) *treeInfo { return analyseDoc(built{root: root}) }
+
+// analyseDoc does the same for the whole formatting structure: the tree, then the footnotes
+// that a ::footnote-call box of the tree points to, completed the way layout completes a
+// footnote area (footnoteArea). A footnote box of the list that no call points to is never laid
+// out: it is counted, not analysed.
+func analyseDoc(bt built) *treeInfo {
+	root := bt.root
+	ti := &treeInfo{byOwner: map[string][]boxRef{}, letters: map[rune]int{}, letterAt: map[rune]string{}, counters: map[string]int64{},
+		replaced: map[*html.Node]bo.Box{}, inFnArea: map[string]bool{}}
+	inArea := false
+	var walk func(b, parent bo.Box, depth int, raw bool)
+	walk = func(b, parent bo.Box, depth int, raw bool) {
 		f := b.Box()
 		key := ownerKey(b)
 		ti.byOwner[key] = append(ti.byOwner[key], boxRef{b, parent})
+		ti.all = append(ti.all, b)
+		if inArea {
+			ti.inFnArea[key] = true
+		}
 		if parent != nil && ownerKey(parent) == key && !is(bo.TextT, b) {
 			ti.anon++
 		}
@@ -100,6 +120,47 @@ func analyse(root bo.Box) *treeInfo {
 			fmt.Fprintf(&ti.skeleton, "%d.%d.%d", f.GridX, f.Colspan, f.Rowspan)
 		}
 		ch := f.Children
+		if f.Footnote != nil {
+			ti.calls = append(ti.calls, b)
+			ti.skeleton.WriteByte('@')
+		}
+		if is(bo.ReplacedT, b) && f.Element != nil && f.PseudoType == "" && (parent == nil || parent.Box().Element != f.Element) {
+			ti.replaced[f.Element] = b
+		}
+		if !raw && f.IsRunning() {
+			// A running element is left as built (every anonymous-box pass returns it unchanged): its
+			// content is completed when a copy of it is placed in a margin box, and block and inline
+			// layout take the box out of the flow without looking inside. Only the indexes (owners,
+			// letters) are taken from it.
+			if deferredContext(parent) {
+				raw = true
+			} else {
+				// ... but table, flex and grid layout handle a running child as any other child:
+				// the structure clauses apply to it, reported under one clause
+				ti.counters["running:boxes-outside-block-and-inline-contexts"]++
+				n0 := len(ti.finds)
+				defer func() { ti.collapseRunning(n0, b, parent) }()
+			}
+		}
+		if raw {
+			ti.counters["boxes:indexed-only(columns,inside-running-elements)"]++
+			ti.skeleton.WriteByte('~')
+			if tb, ok := b.(*bo.TextBox); ok {
+				for _, r := range tb.Text {
+					if (r >= 'a' && r <= 'z') || (r >= 'A' && r <= 'Z') {
+						ti.letters[r]++
+						ti.letterAt[r] = key
+					}
+				}
+			}
+			if is(bo.ReplacedT, b) && len(ch) != 0 {
+				ti.fail("I6-replaced-has-children", childList(b), b)
+			}
+			for _, c := range ch {
+				walk(c, b, depth+1, true)
+			}
+			return
+		}
 
 		if tb, ok := b.(*bo.TextBox); ok {
 			for _, r := range tb.Text {
@@ -162,14 +223,27 @@ func analyse(root bo.Box) *treeInfo {
 				ti.counters["I3:column-groups"]++
 				gk := ownerKey(g)
 				ti.byOwner[gk] = append(ti.byOwner[gk], boxRef{g, b})
+				n0 := len(ti.finds)
+				var running bo.Box
+				if g.Box().IsRunning() {
+					running = g
+				}
 				for _, col := range g.Children {
-					ck := ownerKey(col)
-					ti.byOwner[ck] = append(ti.byOwner[ck], boxRef{col, g})
+					if running == nil && col.Box().IsRunning() {
+						running = col
+					}
 					if !is(bo.TableColumnT, col) {
 						ti.fail("I3-column-group-child-not-column", childList(g), g, col)
 					} else if len(col.Box().Children) != 0 {
 						ti.fail("I3-column-has-children", childList(col), col)
 					}
+					// (a column box is never laid out: it and what it may hold are only indexed)
+					walk(col, g, depth+2, true)
+				}
+				if running != nil {
+					// a running column (group) stays in the table: never taken out, never completed
+					ti.counters["running:boxes-outside-block-and-inline-contexts"]++
+					ti.collapseRunning(n0, running, b)
 				}
 			}
 		case is(bo.TableRowGroupT, b):
@@ -245,11 +319,105 @@ func analyse(root bo.Box) *treeInfo {
 			ti.fail("unknown-box-kind", describe(b), b)
 		}
 		for _, c := range ch {
-			walk(c, b, depth+1)
+			walk(c, b, depth+1, false)
 		}
 	}
-	walk(root, nil, 0)
+	walk(root, nil, 0, false)
+
+	// the footnotes reachable from the tree
+	if len(ti.calls) > 0 || len(bt.footnotes) > 0 {
+		listed := map[bo.Box]bool{}
+		for _, fb := range bt.footnotes {
+			listed[fb] = true
+		}
+		var reach []bo.Box
+		seen := map[bo.Box]bool{}
+		for _, c := range ti.calls {
+			fb := c.Box().Footnote
+			ti.counters["footnotes:calls"]++
+			if seen[fb] {
+				ti.fail("I7-content-duplicated", "two ::footnote-call boxes point to the footnote "+describe(fb), c, fb)
+				continue
+			}
+			seen[fb] = true
+			if !listed[fb] {
+				ti.counters["footnotes:call-to-unlisted-footnote"]++
+			}
+			reach = append(reach, fb)
+		}
+		for _, fb := range bt.footnotes {
+			if !seen[fb] {
+				ti.counters["footnotes:listed-but-never-called"]++
+			}
+		}
+		ti.callsSeen = len(ti.calls)
+		if len(reach) > 0 {
+			area := footnoteArea(root, reach)
+			ti.skeleton.WriteString("|F")
+			inArea = true
+			nCalls := len(ti.calls)
+			walk(area, nil, 0, false)
+			ti.calls = ti.calls[:nCalls] // (a footnote inside a footnote is not followed)
+		}
+	}
+	ti.checkReplacedLeaves()
 	return ti
+}
+
+// deferredContext: a running child of this box is taken out of the flow by layout (block and
+// inline layout do it; table, flex and grid layout do not).
+func deferredContext(parent bo.Box) bool {
+	if parent == nil {
+		return false
+	}
+	if is(bo.LineT, parent) || is(bo.InlineT, parent) {
+		return true
+	}
+	return is(bo.BlockContainerT, parent) && !is(bo.FlexContainerT, parent) && !is(bo.GridContainerT, parent)
+}
+
+// collapseRunning replaces the findings made inside a running box that layout will not take out
+// of the flow (finds[n0:]) by one finding of the clause I1-running-content-unfinished.
+func (ti *treeInfo) collapseRunning(n0 int, b, parent bo.Box) {
+	if len(ti.finds) <= n0 {
+		return
+	}
+	first := ti.finds[n0]
+	more := len(ti.finds) - n0 - 1
+	ti.finds = ti.finds[:n0]
+	ti.fail("I1-running-content-unfinished", fmt.Sprintf("the running box %s is a child of %s: table, flex and grid layout handle it as an in-flow child, and no anonymous-box pass has completed its content: %s: %s (+%d more)",
+		describe(b), describe(parent), first.clause, first.detail, more), b)
+}
+
+// checkReplacedLeaves is the second half of "the children of replaced elements generate no box"
+// (the first half, a replaced box has no child box, is checked on every replaced box): no box of
+// the formatting structure belongs to a pseudo-element of an element whose principal box is a
+// replaced box, nor to an element or a text below it in the document.
+func (ti *treeInfo) checkReplacedLeaves() {
+	if len(ti.replaced) == 0 {
+		return
+	}
+	ti.counters["I6:replaced-elements"] += int64(len(ti.replaced))
+	for _, b := range ti.all {
+		f := b.Box()
+		if f.Element == nil {
+			continue
+		}
+		if rb, ok := ti.replaced[f.Element]; ok && b != rb {
+			what := "an anonymous box"
+			if f.PseudoType != "" {
+				what = "the pseudo-element ::" + f.PseudoType
+			}
+			ti.fail("I6-replaced-pseudo-generates-box", fmt.Sprintf("%s is generated for %s of the replaced element of %s", describe(b), what, describe(rb)), b)
+			continue
+		}
+		for a := f.Element.Parent; a != nil; a = a.Parent {
+			if rb, ok := ti.replaced[a]; ok {
+				ti.fail("I6-replaced-child-generates-box", fmt.Sprintf("%s is generated for a descendant of the replaced element of %s", describe(b), describe(rb)), b, rb)
+				break
+			}
+		}
+	}
 }
 
 // ---- I4: grid slots ---------------------------------------------------------------------------
@@ -316,6 +484,18 @@ func slotSim(rows [][]cellSpec, shift bool) (xs [][]int, rss [][]int, overlap bo
 // checkGrid evaluates I4 on one table box, from the output alone: spans are positive and
 // clipped to the row group, GridX follows the reference assignment, no slot holds two cells.
 func (ti *treeInfo) checkGrid(table bo.Box) {
+	for _, g := range table.Box().Children {
+		if g.Box().IsRunning() {
+			ti.counters["I4:tables-with-running-rows-skipped"]++
+			return // reported by I1-running-content-unfinished
+		}
+		for _, r := range g.Box().Children {
+			if r.Box().IsRunning() {
+				ti.counters["I4:tables-with-running-rows-skipped"]++
+				return
+			}
+		}
+	}
 	y0 := 0
 	type placed struct {
 		c     bo.Box
@@ -395,6 +575,7 @@ func (dc *docCase) checkInput(ti *treeInfo) {
 	wantLetters := map[rune]int{}
 	owner := map[rune]int{}
 	ownerTags := map[rune][]string{} // tags of a pseudo-element as a child of its element
+	optional := map[rune]int{}       // occurrences that may or may not be there
 	for i := 1; i < len(dc.nodes); i++ {
 		nd := &dc.nodes[i]
 		key := fmt.Sprintf("e%d", i)
@@ -421,43 +602,108 @@ func (dc *docCase) checkInput(ti *treeInfo) {
 				add(clause, fmt.Sprintf("element e%d (%s) generates %s", i, nd.deadWhy, describe(refs[0].b)), nil, i)
 			}
 		}
+		// pseudo-elements of an element that generates nothing (::before, ::after, ::marker,
+		// ::footnote-marker ...)
+		if !nd.alive && !nd.kidsAlive {
+			var pk []string
+			for k, rs := range ti.byOwner {
+				if strings.HasPrefix(k, key+"::") && len(rs) > 0 {
+					pk = append(pk, k)
+				}
+			}
+			if len(pk) > 0 {
+				sort.Strings(pk)
+				add(deadClause(nd.deadWhy), fmt.Sprintf("pseudo-element of e%d (%s) generates %s", i, nd.deadWhy, describe(ti.byOwner[pk[0]][0].b)), nil, i)
+			}
+		}
+		// the footnote call and the place of the footnote
+		if nd.x.footnote() {
+			wantCalls := 0
+			if nd.alive {
+				wantCalls = 1
+				ti.counters["I7:footnote-elements"]++
+				if len(refs) > 0 && !ti.inFnArea[key] {
+					ti.counters["footnotes:footnote-box-left-in-the-tree"]++
+				}
+			} else {
+				ti.counters["I6:footnote-elements-that-must-not-generate-a-box:"+nd.deadWhy]++
+			}
+			switch {
+			case ti.callsSeen > wantCalls:
+				add(deadClause(nd.deadWhy), fmt.Sprintf("%d ::footnote-call box(es) in the tree, %d expected: e%d (%s) generates %s", ti.callsSeen, wantCalls, i, nd.deadWhy, describe(ti.calls[0])), nil, i)
+			case ti.callsSeen < wantCalls:
+				add("I7-content-lost", fmt.Sprintf("no ::footnote-call box in the tree for the footnote e%d", i), nil, i)
+			}
+		}
 		// pseudo-elements and markers
 		ta := dc.textAlive(i)
+		pseudo := func(r rune, tags []string) {
+			owner[r] = i
+			if ta {
+				wantLetters[r]++
+				if tags != nil {
+					ownerTags[r] = tags
+				}
+			} else {
+				wantLetters[r] += 0
+			}
+		}
 		switch nd.x {
 		case xBefore, xBeforeBlock, xBeforeCell:
-			if ta {
-				wantLetters['B']++
-				owner['B'] = i
-				if nd.x == xBeforeCell && nd.cd.flexContainer() {
-					// the pseudo-element is itself a flex item with a table-part display
-					ownerTags['B'] = []string{"table-cell-in-flex", "table-part-in-flex"}
-				}
-				if nd.x == xBeforeCell && nd.cd.gridContainer() {
-					ownerTags['B'] = []string{"table-cell-in-grid", "table-part-in-grid"}
-				}
+			var tags []string
+			if nd.x == xBeforeCell && nd.cd.flexContainer() {
+				// the pseudo-element is itself a flex item with a table-part display
+				tags = []string{"table-cell-in-flex", "table-part-in-flex"}
 			}
+			if nd.x == xBeforeCell && nd.cd.gridContainer() {
+				tags = []string{"table-cell-in-grid", "table-part-in-grid"}
+			}
+			pseudo('B', tags)
 		case xAfter:
-			if ta {
-				wantLetters['F']++
-				owner['F'] = i
-			}
-		case xImgChild, xImgAlt:
+			pseudo('F', nil)
+		case xObjPng:
+			// ::before and ::after of a replaced element: never alive
+			pseudo('B', nil)
+			pseudo('F', nil)
+		}
+		if nd.x.voidChild() {
 			ir := ti.byOwner["i"]
 			if ta {
 				ti.counters["I7:img-children"]++
 				if len(ir) == 0 {
-					add("I7-content-lost", fmt.Sprintf("<img> child of e%d generates no box", i), []string{"img"}, i)
-				}
-				if nd.x == xImgAlt {
-					wantLetters['Q']++
-					owner['Q'] = i
+					add("I7-content-lost", fmt.Sprintf("<img>/<embed> child of e%d generates no box", i), []string{"img"}, i)
+				} else if nd.x.voidChildLoads() {
+					ti.counters["I6:loaded-img-children"]++
+					if !is(bo.ReplacedT, ir[0].b) {
+						add("I9-principal-box-type", fmt.Sprintf("<img>/<embed> child of e%d whose image loads: expected a replaced box, got %s", i, describe(ir[0].b)), []string{"img"}, i)
+					}
 				}
 			} else if len(ir) > 0 {
 				add("I6-none-subtree-generates-box", fmt.Sprintf("<img> child of dead e%d generates %s", i, describe(ir[0].b)), []string{"img"}, i)
 			}
+			switch nd.x {
+			case xImgAlt, xImgBroken:
+				owner['Q'] = i
+				if ta {
+					wantLetters['Q']++
+				} else {
+					wantLetters['Q'] += 0
+				}
+			case xImgPseudo:
+				// pseudo-elements of the replaced <img>: never alive
+				owner['B'], owner['F'] = i, i
+				wantLetters['B'] += 0
+				wantLetters['F'] += 0
+			}
 		}
 		if nd.alive && nd.cd == dListItem && !nd.replaced {
 			wantLetters['M']++
+			owner['M'] = i
+		}
+		if nd.alive && nd.x.footnote() && nd.d == dListItem {
+			// display:list-item on a footnote element: footnote-display decides the box (block or
+			// inline); whether the marker of the list item survives is not specified
+			optional['M']++
 			owner['M'] = i
 		}
 	}
@@ -491,7 +737,7 @@ func (dc *docCase) checkInput(ti *treeInfo) {
 	for _, r := range keys {
 		want, got := wantLetters[r], ti.letters[r]
 		ti.counters["I7:text-runs-compared"]++
-		if want == got {
+		if want == got || (got > want && got <= want+optional[r]) {
 			continue
 		}
 		kind := "text"
@@ -515,15 +761,34 @@ func (dc *docCase) checkInput(ti *treeInfo) {
 	}
 }
 
+// deadClause names the clause violated when an element that must not generate a box does.
+func deadClause(why string) string {
+	switch why {
+	case "replaced-child":
+		return "I6-replaced-child-generates-box"
+	case "column-child", "colgroup-child":
+		return "I3-column-content-generates-box"
+	case "contents":
+		return "I8-contents-generates-box"
+	}
+	return "I6-none-subtree-generates-box"
+}
+
 // checkPrincipal: clause I9, the type of the principal box(es) of element i, and the span
 // attributes of a principal cell.
 func (dc *docCase) checkPrincipal(ti *treeInfo, i int, refs []boxRef, add func(clause, detail string, extra []string, elems ...int)) {
 	nd := &dc.nodes[i]
 	key := fmt.Sprintf("e%d", i)
 	pp := &dc.nodes[nd.effParent]
-	if pp.cd.flexContainer() || pp.cd.gridContainer() {
+	if (pp.cd.flexContainer() || pp.cd.gridContainer()) && !nd.x.footnote() {
 		// flex and grid items: the statement asks for block-level items (clause I5 on the output);
 		// which box carries the element is not prescribed here
+		return
+	}
+	if nd.x == xRunning && nd.d.tablePart() {
+		// GCPM does not say what the display of a running element computes to; a table part taken
+		// out of the flow (kept as it is, or blockified as CSS 2.1 §9.7 does for the other
+		// out-of-flow boxes) has no prescribed box type
 		return
 	}
 	var want bo.BoxType
@@ -537,8 +802,8 @@ func (dc *docCase) checkPrincipal(ti *treeInfo, i int, refs []boxRef, add func(c
 	}
 	ti.counters["I9:principal-boxes"]++
 	for _, r := range refs {
-		if r.parent != nil && ownerKey(r.parent) == key {
-			continue // anonymous box or content inside the principal box
+		if r.parent != nil && (ownerKey(r.parent) == key || strings.HasPrefix(ownerKey(r.parent), key+"::")) {
+			continue // anonymous box or content inside the principal box (or inside a pseudo-element of it)
 		}
 		b := r.b
 		if b.Box().IsTableWrapper {
